@@ -72,6 +72,7 @@ Example::
 import functools
 import itertools
 import os.path
+import posixpath
 import urllib.parse
 import urllib.request
 import xml.dom
@@ -283,9 +284,10 @@ class Replacer:
             # keep anything absolute
             return uri
 
-        path, filename = os.path.split(path)
-        combined = os.path.normpath(os.path.join(self.base, path, filename))
-        return urllib.request.pathname2url(combined)
+        # a URL path is not a file name: it always uses "/" and is quoted already;
+        # only the path is re-based, query and fragment stay as they are
+        combined = posixpath.normpath(posixpath.join(self.base, path))
+        return urllib.parse.urlunsplit(('', '', combined, query, fragment))
 
     @staticmethod
     def extract_base(uri):
